@@ -609,8 +609,8 @@ MUTANTS = [
     dict(name='unwrap-creates-despite-failure', rule='C13.R1', file='src/lib/SoftHSM.cpp', after='CK_RV SoftHSM::C_UnwrapKey',
          old='\t\trv = UnwrapKeySym(pMechanism, wrapped, token, unwrapKey, keydata);', new='\t\t(void) UnwrapKeySym(pMechanism, wrapped, token, unwrapKey, keydata);'),
     dict(name='wrap-template-mismatch-ignored', rule='C13.R2', file='src/lib/SoftHSM.cpp', after='// Verify the wrap template attribute',
-         old='\t\t\t\tif (!keyAttr.peekValue(v1) || !it->second.peekValue(v2) || (v1 != v2))\n\t\t\t\t{\n\t\t\t\t\treturn CKR_KEY_NOT_WRAPPABLE;\n\t\t\t\t}',
-         new='\t\t\t\tif (!keyAttr.peekValue(v1) || !it->second.peekValue(v2) || (v1 != v2))\n\t\t\t\t{\n\t\t\t\t\tDEBUG_MSG("template mismatch");\n\t\t\t\t}'),
+         old='\t\t\t\tif (!it->second.peekValue(v2) || (v1 != v2))\n\t\t\t\t{\n\t\t\t\t\treturn CKR_KEY_NOT_WRAPPABLE;\n\t\t\t\t}',
+         new='\t\t\t\tif (!it->second.peekValue(v2) || (v1 != v2))\n\t\t\t\t{\n\t\t\t\t\tDEBUG_MSG("template mismatch");\n\t\t\t\t}'),
     dict(name='aes256-wrap-pad-uses-192', rule='C13.R3', file='src/lib/crypto/OSSLAES.cpp', old='\t\t\t\treturn EVP_aes_256_wrap_pad();', new='\t\t\t\treturn EVP_aes_192_wrap_pad();'),
     dict(name='aes-ctr-returns-cbc', rule='C13.R3', file='src/lib/crypto/OSSLAES.cpp', old='\t\t\t\treturn EVP_aes_128_ctr();', new='\t\t\t\treturn EVP_aes_128_cbc();'),
     dict(name='ecdh-truncates-like-symmetric', rule='C13.R4', file='src/lib/SoftHSM.cpp', after='CK_RV SoftHSM::deriveECDH',
